@@ -199,6 +199,45 @@ func c11KeyShapes(tier string, seed int64, idx int, scratch string) rt.CaseResul
 		}
 		c.Count("keys_compared", 1)
 	}
+	if idx%4 < 2 {
+		// key listings longer than any page, batch or log limit one might think of (256, 1000, 1024):
+		// both clients list the same keys, outside and inside a transaction
+		n := []int{300, 1100}[idx%2]
+		for i := 0; i < n; i++ {
+			if i%128 == 0 {
+				rt.Beat()
+			}
+			k := fmt.Sprintf("many-%05d", i)
+			if e1, e2 := in.DB.Set(ctxBg, k, []byte("v")), g.DB.Set(ctxBg, k, []byte("v")); e1 != nil || e2 != nil {
+				c.Violate("write-failed role=keyshapes", fmt.Sprint(e1, e2), nil)
+				return c
+			}
+		}
+		list := func(db fs_db.DB, inTx bool) (string, int) {
+			var st fs_db.Store = db
+			if inTx {
+				tx, err := db.Begin(ctxBg)
+				if err != nil {
+					return "begin: " + err.Error(), -1
+				}
+				defer tx.Rollback(ctxBg)
+				st = tx
+			}
+			ks, err := st.GetKeys(ctxBg)
+			slices.Sort(ks)
+			return fmt.Sprint(seqrun.Class(err), " ", dbx.Sum([]byte(strings.Join(ks, "\x00")))), len(ks)
+		}
+		for _, inTx := range []bool{false, true} {
+			li, ni := list(in.DB, inTx)
+			lg, ng := list(g.DB, inTx)
+			c.Evals++
+			if li != lg {
+				c.Violate("clients-differ op=getkeys many-keys", fmt.Sprintf("GetKeys (inside a transaction: %v) with %d more keys in the database: the inline client lists %d keys, the gRPC client %d", inTx, n, ni, ng), map[string]any{"seed": seed, "case": idx, "keys_added": n, "in_transaction": inTx})
+				return c
+			}
+		}
+		c.AddDistinct(fmt.Sprintf("keyshape:getkeys-many/%d", n))
+	}
 	if idx == 0 {
 		c.Sample = map[string]any{"keys_in_this_case": len(c11KeyGrid(idx, cases)), "first_key_lengths": func() (l []int) {
 			for _, k := range c11KeyGrid(idx, cases) {
